@@ -40,8 +40,16 @@ def bounds(tier):
     return {"quick": {"2 params": "depth 3 (freq 1), depth 4 (freq 2)", "3 params": "depth 2", "nan/inf": "depth 2"}, "thorough": {"2 params": "depth 4 (freq 1), depth 5 (freq 2)", "3 params": "depth 3 (restricted outcomes), depth 2 full", "nan/inf": "depth 2 full, depth 3 single position"}}[tier]
 
 
-def mk_cfg(kind, tol, freq, shapes, seed):
+def pre_dims(cfg, b):
+    """dimensions of block b that carry a Kronecker factor (not ignored)."""
+    ign = cfg["precond"][1].get("ignored", [])
+    return [k for k in range(len(cfg["shapes"][b])) if k not in ign]
+
+
+def mk_cfg(kind, tol, freq, shapes, seed, ignored=None):
     pc = ["shampoo", {"tol": tol}] if kind == "shampoo" else ["soap", {"tol": tol, "method": kind[5:] or "eigh"}]
+    if ignored:
+        pc[1]["ignored"] = list(ignored)
     return seq.cfg_with(shapes=shapes, max_dim=4, merge=True, freq=freq, start=freq, betas=[0.0, 0.5 if kind != "shampoo" else 1.0], precond=pc, lr=0.125, eps=1e-1, seed=seed)
 
 
@@ -52,7 +60,7 @@ class Model:
     def __init__(self, cfg):
         self.cfg = cfg
         self.nb = len(cfg["shapes"])
-        self.nf = [len(s) for s in cfg["shapes"]]
+        self.nf = [len(pre_dims(cfg, b)) for b in range(self.nb)]
         self.c = [0] * self.nb
         if cfg.get("groups"):
             self.groups = [list(g["params"]) for g in cfg["groups"]]
@@ -184,6 +192,12 @@ def work(tier, seed):
                 add(kind, tol, 2, SHAPES2, 5 if tol < 2 else 6, ["ok", "raise"], tag="count-f2")
         add(kind, 1, 1, SHAPES2, 2, ["ok", "raise", "nan", "inf"], tag="value")
         add(kind, 1, 1, SHAPES3, 2, ["ok", "raise"], tag="3p")
+        # ignored dimension 0: the 1-D block has no Kronecker factor at all (nothing to compute at a refresh, never a
+        # failure), the 2-D block has one
+        for tol in (0, 1):
+            cfg = mk_cfg(kind, tol, 1, SHAPES2, seed, ignored=[0])
+            for m in seq.all_masks(2):
+                units.append({"cfg": cfg, "depth": 3 if tier == "quick" else 4, "alphabet": ["ok", "raise"], "first": m, "restricted": False, "tag": "ignored"})
         if tier == "thorough":
             for tol in (0, 1):
                 add(kind, tol, 1, SHAPES3, 3, ["ok", "raise"], restricted=True, tag="3p-r")
@@ -328,7 +342,7 @@ def run_history(cfg, hist, expected_final, poison=None):
     nb = len(params)
     model = Model(cfg)
     beta2 = cfg["betas"][1]
-    L = {(b, k): np.zeros((s, s)) for b, shp in enumerate(cfg["shapes"]) for k, s in enumerate(shp)}
+    L = {(b, f): np.zeros((shp[k], shp[k])) for b, shp in enumerate(cfg["shapes"]) for f, k in enumerate(pre_dims(cfg, b))}
     msgs, digests = [], []
     with Injector(cfg) as inj:
         for ti, (mask, oc) in enumerate(hist):
@@ -346,9 +360,9 @@ def run_history(cfg, hist, expected_final, poison=None):
             for b in range(nb):
                 if mask[b]:
                     G = params[b].grad.detach().double().numpy()
-                    for k in range(G.ndim):
+                    for f, k in enumerate(pre_dims(cfg, b)):
                         gram = mode_gram(G, k)
-                        L[(b, k)] = beta2 * L[(b, k)] + (1 - beta2) * gram if beta2 != 1.0 else L[(b, k)] + gram
+                        L[(b, f)] = beta2 * L[(b, f)] + (1 - beta2) * gram if beta2 != 1.0 else L[(b, f)] + gram
             bc2b = {b: ((1.0 - beta2 ** model.next_t(b, mask)) if (beta2 < 1.0) else 1.0) for b in range(nb)}
             inj.expected = {key: (v if soap else v / bc2b[key[0]]) for key, v in L.items()}
             inj.script = {}
